@@ -7,17 +7,11 @@ NOT_APPLICABLE = {
     "C01": _LOOPS,
     "C02": "verdict exactness is a function of the completed exploration: " + _LOOPS,
     "C03": "witness paths come out of the checker loops and Path::from_fingerprints over DashMap parent pointers: " + _LOOPS,
-    "C04": "pending",
-    "C05": "pending",
-    "C06": "every ActorModel step clones and mutates Network/Timers/RandomChoices (hashbrown/BTreeMap); one symbolic-key hash insert costs 318 s in CBMC and set hashing does not finish",
-    "C07": "pending",
+    "C06": 'every transition clones Network/Timers/RandomChoices: with hashbrown a single symbolic-key insert costs 318 s in CBMC; with Vec-backed container models a one-actor Crash/Deliver step with EMPTY containers costs 15-60 s (x15 per extra actor) and a one-actor Deliver whose handler emits one Send ran >20 min / 27 GB without a verdict (measured) - the property is about multi-command handlers in multi-actor systems',
+    "C07": 'with Vec-backed container models only the duplicating kind is cheap (4 s); on the non-duplicating kind new+send+len costs 96 s, +iter_all 244 s, and two sends plus observation run out of memory; on the ordered kind likewise (measured); the MIR route for NetworkIter was not built; the iterator defects are listed in DESIGN 5, not claimed',
     "C08": "the tester's state is nested BTreeMap<ThreadId, VecDeque<(BTreeMap<..>, Op, Ret)>> cloned per recursion level; a 1-thread 2-op history gave no CBMC verdict in 7 min",
-    "C09": "pending",
-    "C10": "pending",
     "C11": "ebits propagation lives in check_block / check_trace_from_initial: " + _LOOPS,
-    "C12": "pending",
     "C13": "FIFO discipline and parent pointers are inside check_block/reconstruct_path: " + _LOOPS,
     "C14": "same BTreeMap-bound data structures as C08 (measured there)",
-    "C16": "protocol invariant over all drop/duplicate/reorder interleavings with HashableHashMap state per actor and a hash-set network; neither whole-protocol exploration nor a one-step inductive harness is within CBMC's reach",
-    "C19": "HTTP server, JSON, format!-built views, channels and threads; Path re-derivation runs the same heap-vector loops that defeat CBMC in C01",
+    "C16": "protocol invariant over all drop/duplicate/reorder interleavings with HashableHashMap state per actor; a handler-level slice (real ActorWrapper around a recording actor, two Deliver messages in order / duplicated / reordered, modelled maps) ran out of memory in CBMC's propositional reduction for every harness (measured); the reordering loss is reported in DESIGN 5, not claimed",
 }
